@@ -72,6 +72,7 @@ CONTRACTS = {
         'source': (V, 'VariablesManager.new_combinations'),
         'params': {'self': 'obj:ManagerW', 'n': 'int', 'k': 'int', 'label': 'opaquestr'},
         'calls_model': {'WordOfIndicesVariables': 'WordVars'},
+        'modifies': ['self._groups', 'self._formula._numvar'],
         'requires': ['self._formula._numvar >= 0'],
         'raises': {'ValueError': None},
         'returns': 'obj:WordVars',
